@@ -106,6 +106,8 @@ def deleteMapEntry (left : Node) (index : Obj) : M Obj := do
     match ← envGet e id with
     | none => pure (.bool false)
     | some obj =>
+      -- the map may belong to an outer scope: look through the reference (repo fix d9797eb), as `evalIndexAssigment` does
+      let obj ← valueOf obj
       match obj with
       | .map big kvs =>
         match ← liftR (mapDelete kvs index) with
